@@ -773,6 +773,12 @@ impl World {
             Ok(b) => b,
             Err(e) => return format!("save-{}", show_vfs_err(&e)),
         };
+        // any inode order is a snapshot some writer may have produced
+        self.unique += 1;
+        buf = match v1::permute_pseudo_inodes(&buf, self.unique as usize) {
+            Ok(b) => b,
+            Err(e) => return format!("permute-{}", e),
+        };
         if mode == "1" {
             // the same state as a format-version-1 writer stored it (no per-mount mappings)
             buf = match v1::transcode_to_v1(&buf) {
@@ -1204,6 +1210,41 @@ pub mod v1 {
     pub fn decode(buf: &[u8]) -> Result<VfsStateM, String> {
         let r: Result<(VfsStateM, u16), _> = Snapshot::load(&mut &buf[..], buf.len(), vm2());
         r.map(|x| x.0).map_err(|e| format!("{:?}", e))
+    }
+
+    #[derive(Versionize, PartialEq, Debug, Default, Clone)]
+    pub struct PseudoInodeStateM {
+        ino: u64,
+        parent: u64,
+        name: String,
+    }
+
+    #[derive(Versionize, PartialEq, Debug, Default)]
+    pub struct PseudoFsStateM {
+        next_inode: u64,
+        inodes: Vec<PseudoInodeStateM>,
+    }
+
+    /// The saved pseudo tree lists its inodes in the writer's hash-map order: any order is a state
+    /// some writer may have produced.  Re-encode the snapshot (same format version) with the inode
+    /// list rotated and reversed; a restore must not depend on the order.
+    pub fn permute_pseudo_inodes(buf: &[u8], k: usize) -> Result<Vec<u8>, String> {
+        let mut st = decode(buf)?;
+        let mut pvm = VersionMap::new();
+        pvm.set_type_version(PseudoFsStateM::type_id(), 1);
+        let r: Result<(PseudoFsStateM, u16), _> = Snapshot::load(&mut &st.root[..], st.root.len(), pvm.clone());
+        let mut ps = r.map(|x| x.0).map_err(|e| format!("{:?}", e))?;
+        if ps.inodes.len() > 1 {
+            let n = ps.inodes.len();
+            ps.inodes.rotate_left(k % n);
+            ps.inodes.reverse();
+        }
+        let mut root = Vec::new();
+        Snapshot::new(pvm, 1).save(&mut root, &ps).map_err(|e| format!("{:?}", e))?;
+        st.root = root;
+        let mut out = Vec::new();
+        Snapshot::new(vm2(), 2).save(&mut out, &st).map_err(|e| format!("{:?}", e))?;
+        Ok(out)
     }
 
     pub fn transcode_to_v1(buf: &[u8]) -> Result<Vec<u8>, String> {
